@@ -55,6 +55,10 @@ pub fn run(path: &str) -> ! {
   let once = || -> String {
     match engine {
       "c14" if case.get("literal").is_some() => crate::engines::c14::replay_case(&case),
+      "c15" if case.get("what").is_some() => crate::engines::c15::replay_case(&case),
+      "c09" if case.get("law").is_some() => crate::engines::c09::replay_case(&case),
+      "c10" if case.get("bound_literals").is_some() => crate::engines::c10::replay_case(&case),
+      "c13" if case.get("kind").and_then(|k| k.as_str()) == Some("history") => crate::engines::c13::replay_history(&case),
       // type relations are not re-evaluated case by case: the replay of a C16 case is the whole (one second) check
       "c16" => {
         std::env::set_var("VERIF_TIER", "quick");
